@@ -210,6 +210,11 @@ def run_edit_case(case: dict) -> dict:
         root = d / "root"
         p = projmodel.ensure_cls(case["p"])
         projmodel.materialise(p, root, rnd, outside=d / "outside")
+        # a custom licence text without a file extension (accepted with a warning), used by one file: what an earlier load of
+        # the tree registered must not change how a later load in the same process classifies it
+        (root / "LICENSES").mkdir(exist_ok=True)
+        (root / "LICENSES" / "LicenseRef-NoExt").write_text("custom text without extension\n")
+        (root / "uses_noext.py").write_text("# SPDX-FileCopyrightText: 2020 Jane Doe\n# SPDX-License-Identifier: LicenseRef-NoExt\n")
         base = ["--root", str(root), "--no-multiprocessing"]
         warm = [one_run("before the edit|serial", base, root, d, True), one_run("before the edit|pool", ["--root", str(root)], root, d, False)]
         dep5, toml = root / ".reuse" / "dep5", root / "REUSE.toml"
